@@ -10,10 +10,10 @@ CONSTANTS
   LimChildren = 1
   LimNephew = 1
   LimOther = 1
-  MaxOps = 3
-  MaxInject = 1
-  MaxRoleChanges = 1
-  OnlyDiscover = FALSE
+  MaxOps = 8
+  MaxInject = 0
+  MaxRoleChanges = 0
+  OnlyDiscover = TRUE
   Dials <- MCDials
   RecordHist = FALSE
 INVARIANT TypeOK LimitsHold Agreement
